@@ -376,7 +376,7 @@ pub fn run(ctx: &Ctx) -> i32 {
     }
     ctx.finish(
         "model_checking",
-        vec![s, generated_keys(ctx)],
+        vec![s, generated_keys(ctx), large_headers(ctx, &env)],
         &[
             "all four signers are deterministic for a fixed timestamp, so equal histories give equal bytes and the graph closes; the result then holds for histories of any length over this alphabet",
             "every transition is a call of the real API (no separate model to validate): traces_validated_against_impl = transitions",
@@ -394,6 +394,77 @@ pub fn run(ctx: &Ctx) -> i32 {
 
 /// Keys generated by the harness (deterministic seeds): the reported key id must be the full 16 hex digits whatever
 /// digits it starts with, a package signed with such a key verifies with it and with no other.
+/// Packages whose main header is large (a signer or verifier that reads the data in pieces, or only up to a limit, shows here):
+/// sign, write + parse, sign with another key, clear — judged after every step like the histories.
+fn large_headers(ctx: &Ctx, env: &Env) -> SubReport {
+    let mut sizes: Vec<usize> = vec![(1 << 16) + 100, (1 << 20) + 100, (16 << 20) - 4096, (16 << 20) + 4096, (32 << 20) + 4096];
+    if ctx.thorough() {
+        sizes.extend([(8 << 20) + 4096, (64 << 20) + 4096, (128 << 20) + 4096]);
+    }
+    let (ka, kb) = (Key::Ed25519, Key::EcdsaP256);
+    let accs = vlib::par::par_fold(sizes.len() as u64, Acc::new, |i, acc| {
+        let n = sizes[i as usize];
+        let case = |step: &str| json!({"package": format!("no files, description of {} bytes (main header > {} MiB)", n, n >> 20), "history_up_to": step});
+        let built = catch(|| rpm::PackageBuilder::new("big", "1", "MIT", "noarch", "s").description("d".repeat(n)).compression(rpm::CompressionType::None).source_date(1_600_000_000u32).build());
+        let start = match built {
+            Ok(Ok(p)) => p,
+            _ => return acc.count("package does not build (not judged)"),
+        };
+        let b0 = bytes_of(&start);
+        let Some((_, _, _, l0)) = vlib::refhdr::scan(&b0) else { return acc.count("not scanned") };
+        let rest0 = Sha256::digest(&b0[l0.hdr_off..]).to_vec();
+        let mut p = start.clone();
+        let mut last: Option<Key> = None;
+        for (k, step) in ["sign(ed25519)", "write + parse", "sign(ecdsa-p256)", "write + parse", "clear"].iter().enumerate() {
+            acc.evals += 1;
+            let r = catch(|| match *step {
+                "sign(ed25519)" => p.sign_with_timestamp(env.signer(ka), 1_600_000_000u32),
+                "sign(ecdsa-p256)" => p.sign_with_timestamp(env.signer(kb), 1_600_000_000u32),
+                "clear" => p.clear_signatures(),
+                _ => {
+                    let b = bytes_of(&p);
+                    p = rpm::Package::parse(&mut &b[..])?;
+                    Ok(())
+                }
+            });
+            let rank = i * 10 + k as u64;
+            match r {
+                Err(pn) => return acc.viol(panic_violation("large-headers", &pn, case(step)).rank(rank)),
+                Ok(Err(e)) => return acc.viol(Violation::new("large-headers", format!("{} fails: {}", step, e), case(step)).sig("clause", "operation-fails").rank(rank)),
+                Ok(Ok(())) => {}
+            }
+            match *step {
+                "sign(ed25519)" => last = Some(ka),
+                "sign(ecdsa-p256)" => last = Some(kb),
+                "clear" => last = None,
+                _ => {}
+            }
+            acc.nontrivial += 1;
+            for key in [ka, kb] {
+                let ok = catch(|| p.verify_signature(key.verifier(&ctx.repo))).map(|r| r.is_ok()).unwrap_or(false);
+                if ok != (last == Some(key)) {
+                    acc.viol(
+                        Violation::new("large-headers", format!("after {}: verify_signature with {} = {}, last signer = {:?}", step, key.name(), ok, last.map(|k| k.name())), case(step))
+                            .sig("clause", if ok { "other-key-verifies" } else { "last-signer-does-not-verify" })
+                            .rank(rank),
+                    );
+                }
+            }
+            if catch(|| p.verify_digests()).map(|r| r.is_ok()).unwrap_or(false) == false {
+                acc.viol(Violation::new("large-headers", format!("after {}: the digests do not verify", step), case(step)).sig("clause", "digests").rank(rank));
+            }
+            let b = bytes_of(&p);
+            match vlib::refhdr::scan(&b) {
+                Some((_, _, _, l)) if Sha256::digest(&b[l.hdr_off..]).to_vec() == rest0 => {}
+                _ => acc.viol(Violation::new("large-headers", format!("after {}: main header and payload are not the bytes of the starting package", step), case(step)).sig("clause", "header-payload-changed").rank(rank)),
+            }
+        }
+        acc.count(&format!("main header of {} MiB and more", n >> 20));
+    });
+    let acc = Acc::merge_all(accs);
+    SubReport::new("large-headers", "A", &format!("packages without files whose description has {:?} bytes (main headers up to and beyond 16 MiB and 32 MiB): after each step of sign(ed25519), write + parse, sign(ecdsa-p256), write + parse, clear: verifies with exactly the last signer's key, digests verify, main header and payload byte-identical to the start", sizes), acc)
+}
+
 fn generated_keys(ctx: &Ctx) -> SubReport {
     use pgp::composed::{KeyType, SecretKeyParamsBuilder};
     use pgp::types::PublicKeyTrait;
@@ -413,7 +484,24 @@ fn generated_keys(ctx: &Ctx) -> SubReport {
             .build();
         let r = (|| -> Result<_, String> {
             let sk = params.map_err(|e| e.to_string())?.generate(&mut rng).map_err(|e| e.to_string())?;
-            let ssk = sk.sign(&mut rng, String::new).map_err(|e| e.to_string())?;
+            let mut ssk = sk.sign(&mut rng, String::new).map_err(|e| e.to_string())?;
+            // every other key carries a validity period, as `gpg --quick-generate-key … 5y` writes it: a Key Expiration Time
+            // subpacket (seconds after the key's creation) in the self-signature of the user id; the test signature below is
+            // made 100 000 000 s (about 3.2 years) after the creation, within the period
+            if seed % 2 == 1 {
+                use pgp::packet::{PacketTrait, SignatureConfig, SignatureType, Subpacket, SubpacketData};
+                use pgp::types::SecretKeyTrait;
+                let id0 = ssk.details.users[0].id.clone();
+                let mut cfg = SignatureConfig::v4(SignatureType::CertPositive, ssk.algorithm(), pgp::crypto::hash::HashAlgorithm::SHA2_256);
+                cfg.hashed_subpackets = ssk.details.users[0].signatures[0].config.hashed_subpackets.clone();
+                cfg.hashed_subpackets.push(Subpacket::regular(SubpacketData::KeyExpirationTime(chrono::Duration::seconds(5 * 365 * 86_400))));
+                cfg.unhashed_subpackets = vec![Subpacket::regular(SubpacketData::Issuer(ssk.key_id()))];
+                let sig = cfg.sign_certification(&ssk, String::new, id0.tag(), &id0).map_err(|e| e.to_string())?;
+                ssk.details.users[0].signatures = vec![sig];
+                if pgp::SignedPublicKey::from(ssk.clone()).details.key_expiration_time().is_none() {
+                    return Err("the generated key carries no expiration".into());
+                }
+            }
             let id = hex::encode(ssk.key_id().as_ref());
             let spk: pgp::SignedPublicKey = ssk.clone().into();
             let asc = spk.to_armored_string(None.into()).map_err(|e| e.to_string())?;
@@ -458,6 +546,7 @@ fn generated_keys(ctx: &Ctx) -> SubReport {
             Ok(Err(e)) => acc.viol(Violation::new("generated-keys", format!("signing with a freshly generated Ed25519 key fails: {}", e), case()).sig("clause", "operation-fails").rank(i as u64)),
             Ok(Ok((ids, own, others))) => {
                 acc.nontrivial += 1;
+                acc.count(if seed % 2 == 1 { "key with a validity period of five years, signature made within it" } else { "key without expiration" });
                 acc.count(if id.starts_with('0') { "key id with a leading zero digit" } else if id.contains("00") { "key id with a zero byte inside" } else { "other key id" });
                 if ids.as_ref().ok() != Some(&vec![id.clone()]) {
                     acc.viol(Violation::new("generated-keys", format!("signed by the key with id {}, signature_key_ids() = {:?}", id, ids.map_err(|e| e.to_string())), case()).sig("clause", "reported-signer").rank(i as u64));
@@ -472,7 +561,7 @@ fn generated_keys(ctx: &Ctx) -> SubReport {
             }
         }
     }
-    SubReport::new("generated-keys", "A", &format!("{} Ed25519 keys generated from fixed seeds; every one whose 64-bit key id starts with a zero digit or contains a zero byte, and eight others ({} keys): sign a built package, write, parse: signature_key_ids() is exactly the 16-digit id, the key verifies the package, three other generated keys do not", n_seeds, chosen.len()), acc)
+    SubReport::new("generated-keys", "A", &format!("{} Ed25519 keys generated from fixed seeds; every one whose 64-bit key id starts with a zero digit or contains a zero byte, and eight others ({} keys; every other seed's key carries a five-year validity period in its self-signature, the signature is made within it): sign a built package, write, parse: signature_key_ids() is exactly the 16-digit id, the key verifies the package, three other generated keys do not", n_seeds, chosen.len()), acc)
 }
 
 pub fn replay(ctx: &Ctx, v: &Value) -> i32 {
